@@ -29,12 +29,13 @@ type ZZC10Store struct {
 
 	LEO, HW   uint64
 	Retention channelstore.RetentionState
-	MaxRows   int
+	// MaxRows bounds the rows returned over ALL ReadCommitted calls of one harness run (a finite log).
+	MaxRows int
 
 	// Calls counts ReadCommitted invocations; Last is the last request seen.
 	Calls int
 	Last  channelstore.ReadCommittedRequest
-	// SyncOnceSeqs records the sequences of the returned rows that are SyncOnce records.
+	// Rows records every row handed out (the harness looks up which ones were SyncOnce records).
 	Rows []ch.Message
 }
 
@@ -47,6 +48,13 @@ func (s *ZZC10Store) LoadRetentionState(context.Context) (channelstore.Retention
 }
 
 func (s *ZZC10Store) Close() error { return nil }
+
+// GetLastSenderMessageSeq (channelstore.SenderSequenceLookup): any answer at or below throughSeq.
+func (s *ZZC10Store) GetLastSenderMessageSeq(_ context.Context, _ string, throughSeq uint64) (uint64, bool, error) {
+	seq := zzsym.U64("sender.seq")
+	zzsym.Assume(seq <= throughSeq)
+	return seq, zzsym.Bool("sender.found"), nil
+}
 
 // ReadCommitted answers by the port's contract, which is what the production
 // messageDBChannelStoreAdapter.ReadCommitted guarantees for a list port that returns rows ascending
@@ -64,6 +72,7 @@ func (s *ZZC10Store) ReadCommitted(_ context.Context, req channelstore.ReadCommi
 		return channelstore.ReadCommittedResult{NextSeq: req.FromSeq}, nil
 	}
 	k := zzsym.Choice("rows", s.MaxRows+1)
+	s.MaxRows -= k
 	zzsym.Assume(req.Limit <= 0 || k <= req.Limit)
 	out := make([]ch.Message, 0, k)
 	var prev uint64
@@ -82,7 +91,7 @@ func (s *ZZC10Store) ReadCommitted(_ context.Context, req channelstore.ReadCommi
 		prev = seq
 		out = append(out, ch.Message{MessageID: zzsym.U64("row.id"), MessageSeq: seq, SyncOnce: zzsym.Bool("row.synconce")})
 	}
-	s.Rows = append([]ch.Message(nil), out...)
+	s.Rows = append(s.Rows, out...)
 	next := req.FromSeq
 	if k > 0 {
 		if req.Reverse {
@@ -254,4 +263,42 @@ func Harness_C10_ForwardedRead() {
 		floor = item.RetentionThroughSeq
 	}
 	c10CheckRead(st, floor, meta.MinISR, resp.Items[0].Read)
+}
+
+// Harness_C10_ConversationHead: the conversation-head read (readLocalConversationHeads ->
+// readLocalConversationHead -> readLastOrdinaryCommitted) shows only an ordinary message between
+// the retention floor and the committed frontier.
+func Harness_C10_ConversationHead() {
+	st := ZZC10NewStore()
+	svc := &Service{localNode: 1, store: ZZC10Factory{Store: st}}
+	id := ch.ChannelID{ID: "c", Type: 2}
+	req := ConversationHeadRequest{ChannelID: id, RetentionThroughSeq: zzsym.U64("retention"), ExpectedLeader: 1, ExpectedMinISR: zzsym.Int("minisr")}
+	zzsym.Assume(req.RetentionThroughSeq < ^uint64(0) && st.Retention.LocalRetentionThroughSeq < ^uint64(0))
+
+	results := svc.readLocalConversationHeads(ZZC10Ctx{}, "u", []ConversationHeadRequest{req})
+
+	zzsym.Assert(len(results) == 1, "conversation heads not aligned with requests")
+	if len(results) != 1 || results[0].Err != nil {
+		return
+	}
+	head := results[0].Head
+	committed := st.HW
+	if req.ExpectedMinISR <= 1 {
+		committed = st.LEO // commit quorum of one: the durable log end is committed
+	}
+	floor := req.RetentionThroughSeq
+	if st.Retention.LocalRetentionThroughSeq > floor {
+		floor = st.Retention.LocalRetentionThroughSeq
+	}
+	zzsym.Observe("head", head.LastCommittedSeq, head.RetentionThroughSeq, zzsym.B2U(head.Found), head.Message.MessageSeq)
+	zzsym.Assert(head.LastCommittedSeq == committed, "conversation head reports another committed boundary")
+	zzsym.Assert(head.CurrentUserLastSendSeq <= committed, "sender sequence above the committed watermark")
+	if !head.Found {
+		zzsym.Reach("head without message")
+		return
+	}
+	zzsym.Reach("head with message")
+	zzsym.Assert(head.Message.MessageSeq <= committed, "conversation head shows a message above the committed watermark")
+	zzsym.Assert(head.Message.MessageSeq > floor, "conversation head shows a message at or below the retention boundary")
+	zzsym.Assert(!head.Message.SyncOnce, "conversation head shows a SyncOnce record")
 }
